@@ -634,11 +634,33 @@ def _timing_text(fam, n):
 # --------------------------------------------------------------------------- implementation side
 
 def _deep(statements):
+    """per statement its class name and the fields the PARSER gave it (every attribute not starting with `_`), as texts"""
     out = []
     for s in statements:
-        d = dict(s.__dict__)
-        out.append((type(s).__name__, repr(sorted((k, repr(v)) for k, v in d.items()))))
+        out.append((type(s).__name__, {k: repr(v) for k, v in vars(s).items() if not k.startswith('_')}))
     return out
+
+
+def _deep_eq(before, after):
+    """the accumulated CONTENT is the same: as many statements, of the same classes, and every field a statement had in `before`
+    (taken right after input(), before any build) has the same value in `after`.  Attributes that appear LATER on a statement
+    object, or whose names start with `_`, are private bookkeeping of the library (a memo), not applied input: ignored here
+    and counted by `_bookkeeping`."""
+    if len(before) != len(after):
+        return False
+    for (tb, fb), (ta, fa) in zip(before, after):
+        if tb != ta or any(k not in fa or fa[k] != v for k, v in fb.items()):
+            return False
+    return True
+
+
+def _bookkeeping(statements, before):
+    """number of statements that carry attributes the parser did not give them"""
+    n = 0
+    for s, (_, fb) in zip(statements, before):
+        if any(k.startswith('_') or k not in fb for k in vars(s)):
+            n += 1
+    return n
 
 
 def _classify_build_exc(e, statements):
@@ -780,13 +802,13 @@ def run_impl(case):
             # an accepted text is applied completely: one statement per top-level semicolon, after the old CONTENT (the property
             # speaks about the loader's accumulated content, not about the identity of the list object)
             added = len(loader.statements) - len(before)
-            if added != top_level_semicolons(text) or _deep(loader.statements[:len(before)]) != before:
+            if added != top_level_semicolons(text) or not _deep_eq(before, _deep(loader.statements[:len(before)])):
                 fail('accepted-text-not-applied', 'text %d %r was accepted and has %d statements, but loader.statements grew '
                      'by %d' % (k, text[:300], top_level_semicolons(text), added))
         except x.ParsingException:
             outs.append(Sym('parsing'))
             after = _deep(loader.statements)
-            if after != before:
+            if not _deep_eq(before, after):
                 fail('rejected-input-changed-statements', 'text %d %r was rejected but loader.statements changed from %d to %d '
                      'entries' % (k, text[:200], len(before), len(after)))
         except Exception as e:
@@ -806,7 +828,7 @@ def run_impl(case):
             if pacc != str(outs[-1]):
                 fail('input-depends-on-history', 'text %d %r is %s by a loader that saw %r before, and %s by a fresh loader' % (
                     k, text[:300], outs[-1], [t[:80] for t in texts[:k]], pacc))
-            elif pacc == 'accepted' and _deep(probe.statements) != _deep(loader.statements[len(before):]):
+            elif pacc == 'accepted' and not _deep_eq(_deep(probe.statements), _deep(loader.statements[len(before):])):
                 fail('input-depends-on-history', 'text %d %r gives other statements on a loader with history than on a fresh one' % (
                     k, text[:300]))
         if dt > 2.0 + 2e-4 * len(text):
@@ -907,7 +929,7 @@ def _file_routes(x, texts, outs, stmts, accepted, outcome, m, fail, stats):
             if got != 'other' and got != str(outs[k]):
                 fail('file-route-differs:verdict', '%s of a file holding %r: %s, input() of the same text: %s' % (
                     route, text[:300], got, outs[k]))
-            if got != 'accepted' and _deep(loader.statements) != before:
+            if got != 'accepted' and not _deep_eq(before, _deep(loader.statements)):
                 fail('rejected-file-changed-statements', '%s of a file holding %r was rejected (%s) but loader.statements changed '
                      'from %d to %d entries' % (route, text[:300], got, len(before), len(loader.statements)))
         fstmts = [gen_schema.stmt_dump(s) for s in loader.statements]
@@ -954,7 +976,10 @@ def _file_routes(x, texts, outs, stmts, accepted, outcome, m, fail, stats):
 
 def _afterlife(x, loader, accepted, outcome, m, deep_before_build, fail, stats):
     """keep using the loader (and what it built) after the build, whatever its outcome"""
-    if _deep(loader.statements) != deep_before_build:
+    nb = _bookkeeping(loader.statements, deep_before_build)
+    if nb:
+        stats['statements_with_bookkeeping_attrs'] = nb
+    if not _deep_eq(deep_before_build, _deep(loader.statements)):
         fail('build-changed-statements', 'build_metamodel (%s) changed loader.statements: %r' % (outcome, [t[:200] for t in accepted]))
         return
     # the loader's content is not consumed: a second build ends the same way
@@ -989,7 +1014,7 @@ def _afterlife(x, loader, accepted, outcome, m, deep_before_build, fail, stats):
             # (MetaClass.new appends to storage before the defaults are set); the property does not speak about it
             stats['half_built_metamodels'] = 1
         stats['afterlife_rejected_populate'] = 1
-        if _deep(loader.statements) != deep_before_build:
+        if not _deep_eq(deep_before_build, _deep(loader.statements)):
             fail('build-changed-statements', 'a rejected populate changed loader.statements: %r' % ([t[:200] for t in accepted],))
             return
     # one more text after the build: the loader goes on as a fresh one that saw the accepted texts and this one
